@@ -224,7 +224,7 @@ def run(chk):
     pr = vlib.check_proofs("C08", THEOREMS)
     chk.proof = pr
     quick = chk.tier == "quick"
-    budget = 150 if quick else 1700
+    budget = 120 if quick else 1700
     t0 = time.time()
     R.impl_exe("asan")
     R.impl_exe("ubsan")
